@@ -338,3 +338,29 @@ Proof.
   - unfold impl03 in H. destruct (ia_notfound a); [contradiction|]. destruct (find_iface tt cur imports (ia_fullpath a) (ia_iface a)); [|contradiction].
     destruct (find_type tt (ia_type a)); [|contradiction]. destruct (missing_methods t i (ia_ptr a)); [contradiction|]. destruct H as [<-|[]]. reflexivity.
 Qed.
+
+(* ---------- signaturesMatch, declaratively ---------- *)
+Definition shown_same (a b : shown) : Prop := sh_variadic a = sh_variadic b /\ norm (sh_ty a) = norm (sh_ty b).
+
+Lemma shown_match_spec a b : shown_match a b = true <-> shown_same a b.
+Proof. unfold shown_match, shown_same. rewrite andb_true_iff, Bool.eqb_true_iff, identical_iff. reflexivity. Qed.
+
+Lemma shown_list_match_spec l1 : forall l2, shown_list_match l1 l2 = true <-> Forall2 shown_same l1 l2.
+Proof.
+  induction l1 as [|x r IH]; intros [|y s]; simpl.
+  - split; [constructor|reflexivity].
+  - split; [discriminate|intros H; inversion H].
+  - split; [discriminate|intros H; inversion H].
+  - rewrite andb_true_iff, shown_match_spec, IH. split; [intros [H1 H2]; constructor; assumption|intros H; inversion H; auto].
+Qed.
+
+(* a method of the type matches an interface method iff they have as many parameters and results and, position by position,
+   the same variadicity and identical types (the variadic parameter compared by its element type) *)
+Theorem signatures_match_spec t i :
+  signatures_match t i = true <->
+  List.length (s_params t) = List.length (s_params i) /\ List.length (s_results t) = List.length (s_results i) /\
+  Forall2 shown_same (tuple_types (s_params t) (s_variadic t)) (tuple_types (s_params i) (s_variadic i)) /\
+  Forall2 shown_same (tuple_types (s_results t) false) (tuple_types (s_results i) false).
+Proof.
+  unfold signatures_match. rewrite !andb_true_iff, !Nat.eqb_eq, !shown_list_match_spec. tauto.
+Qed.
